@@ -65,7 +65,13 @@ def guard_rule(ctx, rule):
                 sn = g.nodes_of(st)
                 ktxt, itxt = norm(key), norm(idx)
                 # (a) dominated by the false edge of `key in index` (throwing true edge)
-                mem = {t.id for t in g.nodes if t.kind == 'test' and norm(t.ast) == '%s in %s' % (ktxt, itxt)}
+                from ..q import resolve_local as _rl         # a local that names the index (`composite_index = cache_indexes[attrs]`) reads like the index
+                def _rn(fn_node, t):
+                    import copy
+                    if isinstance(t, ast.Compare) and len(t.ops) == 1 and isinstance(t.ops[0], (ast.In, ast.NotIn)) and isinstance(t.comparators[0], ast.Name):
+                        t = copy.copy(t); t.comparators = [_rl(fn_node, t.comparators[0])]
+                    return t
+                mem = {t.id for t in g.nodes if t.kind == 'test' and (norm(t.ast) == '%s in %s' % (ktxt, itxt) or norm(_rn(fn.node, t.ast)) == '%s in %s' % (ktxt, itxt))}
                 # (b) dominated by the true edge of `<v> is None` where v = index.get(key)
                 getvars = {dotted(s.targets[0]) for s in walk_no_nested(fn.node) if isinstance(s, ast.Assign) and len(s.targets) == 1
                            and norm(s.value) == '%s.get(%s)' % (itxt, ktxt)}
@@ -88,7 +94,7 @@ def guard_rule(ctx, rule):
                         for a in adds:
                             t0 = [t for t in a.targets if isinstance(t, ast.Subscript)][0]
                             want = '%s in cache_indexes[%s]' % (norm(a.value), norm(t0.slice))
-                            tm = {t.id for t in g.nodes if t.kind == 'test' and norm(t.ast) == want}
+                            tm = {t.id for t in g.nodes if t.kind == 'test' and (norm(t.ast) == want or norm(_rn(fn.node, t.ast)) == want)}
                             rr = g.reach([g.entry], edge_ok=lambda x, y, lab: not (x in tm and lab == 'F'))
                             if not tm or any(x.id in rr for x in g.nodes_of(a)): good = False
                         if good: ok = True
